@@ -45,6 +45,14 @@ CLAIMS = {
              'records the current pid; with an equal pid the pooled connection is reused.',
         note='Per-call guarantee only: a fork inside an open session (child inherits cache.connection) and cross-process visibility of data are not covered. '
              'os.getpid is an effect returning an arbitrary int; driver modules are stubs supplying recording objects.'),
+    'C32': dict(
+        text='Finite-domain proof by complete enumeration on the real code: for 15 public operations (assignment, set(), delete, flush, load, lazy attribute '
+             'and collection loads, collection add/remove/clear/create/assign, in-place Json change) on objects of every status left over from sessions that '
+             'committed, rolled back or failed, strict and non-strict: the liveness precondition holds, the call raises DatabaseSessionIsOver (or the equally '
+             'harmless was-deleted / db_session-required error), the object and session state equal the snapshot, and no SQL / connection effect occurs; loaded '
+             'values remain readable unless strict.',
+        note='Ground obligations over a finite domain (3 endings x 2 x 5 object kinds x 15 operations + reads). Entry points outside the listed operations are '
+             'not covered. In-memory SQLite provides the real sessions that leave the objects behind.'),
 }
 
 _NOT_BUILT = 'within reach of the technique per DESIGN.md, check not built yet'
